@@ -133,8 +133,6 @@ class Term(qcore.Query):
                 w = context.weighting
 
             m = searcher.postings(self.fieldname, text, weighting=w)
-            if self.minquality:
-                m.set_min_quality(self.minquality)
             if self.boost != 1.0:
                 m = matching.WrappingMatcher(m, boost=self.boost)
             return m
